@@ -1,5 +1,6 @@
 import Nlmodel.Driver.Proto
 import Nlmodel.Model.Pipeline
+import Nlmodel.Driver.Instrumented
 open Nl
 
 /-- character classes: loaded from the table dumped by the harness from Rust's std
@@ -68,6 +69,10 @@ def handle (cc : CharClass) (line : String) : String :=
   | ["eval", b, h] =>
     match unhexText h with
     | some t => (evalText cc b.toNat! t).show
+    | none => "bad-hex"
+  | ["evalx", b, h] =>
+    match unhexText h with
+    | some t => evalTextX cc b.toNat! t
     | none => "bad-hex"
   | ["spec", b, h] =>
     match unhexText h with
